@@ -69,7 +69,7 @@ func (e *OpEngine) RunProgram(p *Program, st *WalkStats) {
 	}
 	key := "gradtrack.BackPropagate"
 	dims := []sym.Poly{sym.PAtom("d0")}
-	_, err := e.M.Explore(64, func() {
+	_, err := e.M.Explore(512, func() {
 		e.Begin()
 		sym.ActiveFacts = nil
 		e.M.Base = sizeBase(dims)
@@ -88,6 +88,13 @@ func (e *OpEngine) RunProgram(p *Program, st *WalkStats) {
 				args = []interp.Value{vals[s.A], interp.FloatV{E: sym.SymE(fmt.Sprintf("k%d", si))}}
 			case "Exp", "Tanh", "Sin":
 				args = []interp.Value{vals[s.A]}
+			case "ReshapeSame":
+				// a shape operation that keeps the shape: the element expression is unchanged
+				fn = e.method("Reshape")
+				args = []interp.Value{vals[s.A], e.intsArg(dims)}
+			case "Flatten0":
+				fn = e.method("Flatten")
+				args = []interp.Value{vals[s.A], intV(sym.PInt(0))}
 			case "ElMaxSelf":
 				// the same tensor as both operands of an operation whose back edges target the operands directly
 				fn = e.method("ElMax")
@@ -315,7 +322,7 @@ func (e *OpEngine) edgeBound(t interp.PtrV) int {
 
 /* ---------- program enumeration ---------- */
 
-var unaryP = []string{"Scale", "Exp", "ElMaxSelf"}
+var unaryP = []string{"Scale", "Exp", "ElMaxSelf", "ReshapeSame"}
 var binaryP = []string{"Add", "Mul"}
 
 // EnumeratePrograms lists every program with exactly k steps over the given leaves (root = last value).
@@ -367,6 +374,8 @@ func TemplatePrograms() []*Program {
 		{Name: "wide-reconverge", Leaves: []bool{T, T}, Steps: []PStep{{"Add", 0, 1}, {"Mul", 2, 0}, {"Mul", 2, 1}, {"Add", 3, 4}, {"Mul", 5, 2}}},
 		{Name: "same-operand-twice", Leaves: []bool{T}, Steps: []PStep{{"Exp", 0, 0}, {"ElMaxSelf", 1, 0}, {"Scale", 2, 0}}},
 		{Name: "same-operand-twice-fanout", Leaves: []bool{T}, Steps: []PStep{{"Scale", 0, 0}, {"ElMaxSelf", 1, 0}, {"Mul", 2, 1}, {"ElMaxSelf", 3, 0}}},
+		{Name: "identity-reshape-of-intermediate", Leaves: []bool{T}, Steps: []PStep{{"Exp", 0, 0}, {"ReshapeSame", 1, 0}, {"Scale", 2, 0}}},
+		{Name: "flatten-of-intermediate-fanout", Leaves: []bool{T}, Steps: []PStep{{"Scale", 0, 0}, {"Flatten0", 1, 0}, {"Mul", 2, 1}}},
 		{Name: "root-is-leaf", Leaves: []bool{T}, Steps: nil, Roots: []int{0}},
 		{Name: "intermediate-root", Leaves: []bool{T}, Steps: []PStep{{"Exp", 0, 0}, {"Scale", 1, 0}}, Roots: []int{1}},
 	}
